@@ -234,9 +234,19 @@ def packed_tensor_rules(chk):
             b_ = bind_call(repo.method(ci, "__init__")[1], e, skip_first=1)
             a = [U(b_[k_]) for k_ in ("data", "bits", "size", "stride")] if b_ else [U(x) for x in e.args]
             t0 = f"{args}[0]"
-            is_detach = f.get(f"{op}.overloadpacket is torch.ops.aten.detach") is True
-            want_data = f"{op}({t0}._data)" if is_detach else f"{op}({t0}._data, **{kwargs})"
-            ok = a == [want_data, f"{t0}._bits", f"{t0}.size()", f"{t0}.stride()"]
+            # the ops this path serves: `op.overloadpacket is X` / `op.overloadpacket in (X, Y)`; an op that copies or aliases the values without
+            # options that concern the packed data (detach; clone, whose memory_format describes the unpacked tensor) may drop the keywords,
+            # a move may not (the device travels in them)
+            served = set()
+            for a_, v_ in f.items():
+                if v_ is True and a_.startswith(f"{op}.overloadpacket is "):
+                    served.add(a_.split(" is ", 1)[1])
+                elif v_ is True and a_.startswith(f"{op}.overloadpacket in "):
+                    served.update(x_.strip() for x_ in a_.split(" in ", 1)[1].strip("()[] ").split(","))
+                elif v_ is True and a_.startswith(f"{op}.overloadpacket == "):
+                    served.add(a_.split(" == ", 1)[1])
+            is_detach = bool(served) and served <= {"torch.ops.aten.detach", "torch.ops.aten.clone", "torch.ops.aten.alias"}
+            ok = a[1:] == [f"{t0}._bits", f"{t0}.size()", f"{t0}.stride()"] and (a[0] == f"{op}({t0}._data, **{kwargs})" or (is_detach and a[0] == f"{op}({t0}._data)"))
             chk.require("C04.R5", site, ok, f"PackedTensor dispatch ({'detach' if is_detach else 'move'}): re-wraps `{a[0] if a else ''}` with unchanged bits/size/stride", "PackedTensor.__torch_dispatch__", "dispatch re-wrap", "detach / device move of a packed tensor changes its bit width or geometry")
         else:
             # an op that writes into its operand (zero_, fill_, copy_, out=) run on the unpacked temporary is silently lost
